@@ -300,6 +300,11 @@ impl Walrus {
             // may hold data, and each such unit owns a block id.
             let mut empty_units: usize = 0;
             while block_offset + DEFAULT_BLOCK_SIZE <= MAX_FILE_SIZE {
+                // A file that was never sized (crash between its creation and set_len) or that was
+                // truncated has no complete unit here; reading it would run past the mapping.
+                if (block_offset + DEFAULT_BLOCK_SIZE) as usize > mmap.len() {
+                    break;
+                }
                 let mut probe = [0u8; 8];
                 mmap.read(block_offset as usize, &mut probe);
                 if probe.iter().all(|&b| b == 0) {
